@@ -48,7 +48,7 @@ ASSUMPTIONS = ['reference evaluator lv/ref.py is the oracle', 'CPython sqlite3',
                'across table boundaries is a rendering difference)',
                'a history re-uses one LogicaProgram object; each predicate of it is executed '
                'on its own fresh SQLite connection']
-OPTS = dict(p_colnames=0.0, p_neg=0.2, p_agg=0.25, p_distinct=0.3, p_null_fact=0.03,
+OPTS = dict(p_colnames=0.0, p_neg=0.2, p_agg=0.25, p_distinct=0.3, p_null_fact=0.0,
             p_or=0.15, p_fcall=0.1, p_sibling_reuse=0.4, p_feed_sibling=0.2,
             p_sibling_reuse_neg=0.5,
             agg_ops=('Sum', 'Min', 'Max', '+'), n_idb=(3, 4), n_inj=(1, 3),
